@@ -58,15 +58,42 @@ type obs struct {
 func safely(f func()) (panicked bool, val string) {
 	defer func() {
 		if p := recover(); p != nil {
-			st := string(debug.Stack())
-			if len(st) > 1500 {
-				st = st[:1500]
-			}
-			panicked, val = true, fmt.Sprintf("%v\n%s", p, st)
+			panicked, val = true, fmt.Sprintf("%v [%s]", p, panicSite(string(debug.Stack())))
 		}
 	}()
 	f()
 	return
+}
+
+// panicSite reduces a stack trace to the function names between the panic and the checker (no goroutine
+// ids, addresses or arguments, so that the text is the same on every run).
+func panicSite(st string) string {
+	var fns []string
+	after := false
+	for _, ln := range strings.Split(st, "\n") {
+		if strings.HasPrefix(ln, "\t") || ln == "" || strings.HasPrefix(ln, "goroutine ") {
+			continue
+		}
+		if i := strings.LastIndex(ln, "("); i > 0 {
+			ln = ln[:i]
+		}
+		if strings.HasPrefix(ln, "panic") {
+			after = true
+			fns = fns[:0]
+			continue
+		}
+		if !after {
+			continue
+		}
+		if strings.HasPrefix(ln, "main.") {
+			break
+		}
+		fns = append(fns, ln)
+		if len(fns) >= 6 {
+			break
+		}
+	}
+	return strings.Join(fns, " <- ")
 }
 
 // found collects, per signature, the first failing case in deterministic enumeration order.
@@ -139,7 +166,9 @@ func replayMain() {
 		fmt.Println("MACHINERY-ERROR: cannot load replay file:", err)
 		os.Exit(2)
 	}
-	fmt.Printf("replaying %s case: %+v\n", c.Phase, c)
+	cc := c
+	cc.Detail = ""
+	fmt.Printf("replaying %s case: %+v\n", c.Phase, cc)
 	os_ := rerun(c)
 	if len(os_) == 0 {
 		fmt.Println("the property holds on this case")
@@ -174,6 +203,10 @@ func main() {
 		return
 	}
 
+	for _, b := range family {
+		prepareBase(b)
+	}
+	warmCaches()
 	runPartSets()
 	runHeaderHash()
 	runMutations()
@@ -181,13 +214,14 @@ func main() {
 	flush()
 
 	r.Add("states", int64(r.DistinctCount("partset_states")+r.DistinctCount("block_states")))
-	r.Set("rule", "(a) E2 to fixpoint: receiving PartSet built with NewPartSetFromHeader for data of 1..5 (thorough ..6) parts of size 8 with short / full last part, "+
+	r.Set("rule", "(a) E2 to fixpoint: receiving PartSet built with NewPartSetFromHeader for data of 1..5 (thorough ..8; a graph is cut at 120000 states, which only happens while bogus parts are accepted) parts of size 8 with short / full last part, "+
 		"distinct and repeated part contents, and for headers announcing 0 parts; state key = bytes held by every slot + count + bit array; every token of the adversarial alphabet "+
 		"(genuine, genuine after a wire round trip, relabelled index, changed proof index, both, parts / bytes of another set, truncated / extended / empty bytes with the genuine or a recomputed leaf hash, "+
 		"wrong proof total, proof of another leaf, tampered aunts / leaf hash, index >= total, inner node offered as a leaf) is offered in every reachable state (so all orders and duplicates are covered). "+
 		"(b) E3: every single-field mutation (each header field over its boundary alternatives, tx add / remove / duplicate / swap / replace / every byte altered, commit height / round / id / every flag / address / "+
 		"timestamp / every signature byte / list edits, every evidence field and list edit) of every block of the family {height 1, height 2} x {0,1,3 txs} x {0,1,2 evidence} x {full, absent, nil-vote commit}, "+
-		"applied to the wire form, decoded with BlockFromProto and validated with BlockExecutor.ValidateBlock on a fresh executor and on one that validated the original. "+
+		"applied to the wire form, decoded with BlockFromProto and validated with BlockExecutor.ValidateBlock on a fresh executor and on one that validated the original "+
+		"(thorough adds a 130-transaction block, which crosses the 0x7f index boundary of DeriveSha); Header.Hash() and the header wire form are checked per leaf field found by reflection. "+
 		"(c) E3: proto and rawdb round trips over the block family and the boundary product of commit / vote / proposal / part / id fields. "+
 		"A mutation counts only when the decoded block's canonical encoding differs from the original's")
 	r.Assume(
